@@ -1021,6 +1021,60 @@ def _hessian_pairing(st: Stencil, step, S):
     return ok, "; ".join(detail)
 
 
+def _binds_locally(fi, name: str) -> bool:
+    """the function (or a function around it) binds `name` itself: parameter, assignment, loop / with / except target, nested def / class, import"""
+    while fi is not None:
+        for x in ast.walk(fi.node):
+            if isinstance(x, ast.arg) and x.arg == name:
+                return True
+            if isinstance(x, ast.Name) and x.id == name and isinstance(x.ctx, (ast.Store, ast.Del)):
+                return True
+            if isinstance(x, (ast.FunctionDef, ast.AsyncFunctionDef, ast.ClassDef)) and x is not fi.node and x.name == name:
+                return True
+            if isinstance(x, ast.ExceptHandler) and x.name == name:
+                return True
+            if isinstance(x, (ast.Import, ast.ImportFrom)) and any((al.asname or al.name).split(".")[0] == name for al in x.names):
+                return True
+            if isinstance(x, (ast.Global, ast.Nonlocal)) and name in x.names:
+                return True
+        fi = fi.parent
+    return False
+
+
+def _settled(S, fi, cx: Ctx, e, depth: int = 0):
+    """e with its temporaries looked through and with every read of a module-level constant of fi's module (bound exactly once at the top level, never
+    re-bound / stored into / mutated anywhere in the package: `_module_constants`) replaced by the literal the constant is bound to; the elements of a
+    tuple / list display are settled too.  Only numbers, inf spellings and displays of those are taken from a constant: anything else stays a name."""
+    if e is None or depth > 4:
+        return e
+    e = cx.resolve(e)
+    if isinstance(e, ast.Name) and isinstance(e.ctx, ast.Load) and not _binds_locally(fi, e.id):
+        v = _module_constants(S, fi.module).get(e.id)
+        if v is not None and _literal_bound(v):
+            return _settled(S, fi, cx, copy.deepcopy(v), depth + 1)
+        return e
+    if isinstance(e, (ast.Tuple, ast.List)) and not any(isinstance(x, ast.Starred) for x in e.elts):
+        elts = [_settled(S, fi, cx, x, depth + 1) for x in e.elts]
+        if any(a is not b for a, b in zip(elts, e.elts)):
+            return ast.copy_location(type(e)(elts=elts, ctx=ast.Load()), e)
+    return e
+
+
+def _literal_bound(v) -> bool:
+    """a number, a spelling of infinity, another name (settled in turn), or a tuple of those: what a module-level bound constant may be made of"""
+    if isinstance(v, ast.Tuple):
+        return all(_literal_bound(x) for x in v.elts)
+    if isinstance(v, ast.UnaryOp) and isinstance(v.op, (ast.USub, ast.UAdd)):
+        return _literal_bound(v.operand)
+    if isinstance(v, ast.Constant):
+        return isinstance(v.value, (int, float)) and not isinstance(v.value, bool)
+    if isinstance(v, ast.Name):
+        return True
+    if isinstance(v, ast.Call):
+        return dotted(v.func) == "float" and len(v.args) == 1 and not v.keywords and isinstance(v.args[0], ast.Constant) and isinstance(v.args[0].value, str)
+    return dotted(v) in ("np.inf", "numpy.inf", "math.inf")
+
+
 def r19_4(chk: Check) -> None:
     f = chk.src.func("effectivePotential:EffectivePotential.derivT")
     chk.touch(f.name)
@@ -1033,7 +1087,7 @@ def r19_4(chk: Check) -> None:
     cx = Ctx(chk.src, f)
     c = calls[0]
     b = kwarg(c, "bounds", 4)
-    b = cx.resolve(b) if b is not None else None
+    b = _settled(chk.src, f, cx, b) if b is not None else None
     ok = False
     if isinstance(b, (ast.Tuple, ast.List)) and len(b.elts) == 2:
         lo, hi = b.elts
@@ -1043,7 +1097,7 @@ def r19_4(chk: Check) -> None:
     chk.ob("R19.4", f.where(c), "derivT passes bounds=(0, inf): the potential is never evaluated at negative temperature",
            ok, src(b) if b is not None else "no bounds argument", key="derivT|bounds")
     n = kwarg(c, "n", 2)
-    n = cx.resolve(n) if n is not None else None
+    n = _settled(chk.src, f, cx, n) if n is not None else None
     chk.ob("R19.4", f.where(c), "derivT takes the first derivative (n=1)",
            n is None or (isinstance(n, ast.Constant) and n.value == 1), src(n) if n else "default", key="derivT|n")
     # the tables are not written anywhere in the package
